@@ -14,7 +14,7 @@ def validate(ctx: Ctx, traces: list[list[dict]], module: str = "DriverTrace", na
     if not traces:
         return []
     n = len(traces)
-    shards = shards or max(1, min(NCPU // 2, n // 40 + 1))
+    shards = shards or max(1, min(NCPU, n // 25 + 1))
     parts = [list(range(i, n, shards)) for i in range(shards)]
     result: list[set[str] | None] = [None] * n
 
@@ -24,7 +24,7 @@ def validate(ctx: Ctx, traces: list[list[dict]], module: str = "DriverTrace", na
         with open(path, "w") as fh:
             json.dump([traces[i] for i in idx], fh, default=_js)
         res = run_tlc(ctx, f"{name}-{k}", module, f"{module}.cfg", env={"TRACE_FILE": str(path)},
-                      workers=2, timeout=1500, record=False)
+                      workers=1, timeout=1500, record=False)
         os.unlink(path)
         return k, res
 
